@@ -21,10 +21,11 @@ FAMILIES = {
     "rdf": "harness.check_rdf",
     "query": "harness.check_query",
     "convert": "harness.check_convert",
+    "reader": "harness.check_reader",
 }
 # property -> families whose judges print verdicts for it
 PROPS = {
-    "C03": ["tree", "clone"], "C04": ["tree", "clone"], "C05": ["values"], "C06": ["tree", "values", "card", "merge"],
+    "C03": ["tree", "clone"], "C04": ["tree", "clone"],   # (merge, links, reader judges also print C03/C04 verdicts; those families are run by their own properties) "C05": ["values"], "C06": ["tree", "values", "card", "merge"],
     "C09": ["card"],
     "C14": ["paths"],
     "C11": ["clone", "values"],
@@ -37,6 +38,7 @@ PROPS = {
     "C10": ["rdf"],
     "C20": ["query"],
     "C15": ["convert"],
+    "C16": ["reader"],
     "C01": ["formats"], "C02": ["formats"],
 }
 EXPLAIN = {}
